@@ -4,9 +4,13 @@
 package execharness
 
 import (
+	"context"
 	"errors"
 	"fmt"
+	"github.com/graphql-go/graphql/gqlerrors"
 	"math"
+	"strconv"
+	"strings"
 	"sync"
 
 	"github.com/graphql-go/graphql"
@@ -55,7 +59,7 @@ type worldGen struct {
 	w     *World
 }
 
-var failKinds = []string{"err", "valerr", "panicErr", "panicStr", "panicOther"}
+var failKinds = []string{"err", "valerr", "panicErr", "panicStr", "panicOther", "errForeign", "panicForeign"}
 
 func (g *worldGen) pct(p int) bool { return g.r.Intn(100) < p }
 
@@ -86,13 +90,28 @@ func (g *worldGen) leaf(name string) interface{} {
 	}
 	switch b {
 	case "Int":
-		switch g.r.Intn(8) {
+		switch g.r.Intn(6) {
 		case 0:
 			return 3000000000 // out of 32-bit range
 		case 1:
 			return M{"$dec": []interface{}{25, 1}} // fractional float: truncated
 		case 2:
 			return true
+		case 3:
+			// integers of other widths and behind pointers, in and out of the 32-bit range
+			k := g.r.Pick([]string{"int64", "pint64", "pint64", "pint64", "pint", "pint", "int32", "pint32", "uint32", "puint32", "uint64", "puint64", "puint64", "pint8"})
+			v := g.r.Pick([]string{"7", "-7", "2147483647", "2147483648", "-2147483648", "-2147483649", "3000000000", "-3000000000"})
+			if strings.Contains(k, "uint") {
+				v = strings.TrimPrefix(v, "-")
+			}
+			if k == "pint8" {
+				v = g.r.Pick([]string{"7", "-7", "127"})
+			}
+			if k == "int32" || k == "pint32" {
+				v = g.r.Pick([]string{"7", "-7", "2147483647", "-2147483648"})
+			}
+			n, _ := strconv.ParseInt(v, 10, 64)
+			return M{"$num": []interface{}{k, n}}
 		}
 		return g.r.Range(-50, 1000)
 	case "Float":
@@ -320,10 +339,21 @@ type Runtime struct {
 	Log     []LogEntry
 	Seq     []string // resolver calls and thunk calls in the order they happen: "call|<path>|<Parent.field>", "force|<path>"
 	TypeLog []string
-	Mutate  bool // resolvers mutate the args map they receive (C20 aliasing probe)
+	TypeCtx []interface{} // context tag seen by every ResolveType / IsTypeOf call (nil context = "<nil ctx>")
+	Mutate  bool          // resolvers mutate the args map they receive (C20 aliasing probe)
 }
 
 type ctxKey struct{}
+
+func (rt *Runtime) noteTypeCtx(ctx context.Context) {
+	var tag interface{} = "<nil ctx>"
+	if ctx != nil {
+		tag = ctx.Value(ctxKey{})
+	}
+	rt.mu.Lock()
+	rt.TypeCtx = append(rt.TypeCtx, tag)
+	rt.mu.Unlock()
+}
 
 func NewRuntime(w *World, s *gq.SchemaDesc) *Runtime {
 	rt := &Runtime{W: w, S: s, objs: map[int]*wobj{}, byID: map[int]*WObj{}}
@@ -336,7 +366,7 @@ func NewRuntime(w *World, s *gq.SchemaDesc) *Runtime {
 
 func (rt *Runtime) Reset() {
 	rt.mu.Lock()
-	rt.Log, rt.TypeLog, rt.Seq = nil, nil, nil
+	rt.Log, rt.TypeLog, rt.Seq, rt.TypeCtx = nil, nil, nil, nil
 	rt.mu.Unlock()
 }
 
@@ -422,6 +452,37 @@ func (rt *Runtime) goValue(v interface{}, path []interface{}) interface{} {
 		if f, ok := x["$float"]; ok {
 			return float64(toInt(f))
 		}
+		if nv, ok := x["$num"]; ok {
+			a := nv.([]interface{})
+			n := int64(toInt(a[1]))
+			switch a[0] {
+			case "int64":
+				return n
+			case "pint64":
+				return &n
+			case "pint":
+				v := int(n)
+				return &v
+			case "int32":
+				return int32(n)
+			case "pint32":
+				v := int32(n)
+				return &v
+			case "uint32":
+				return uint32(n)
+			case "puint32":
+				v := uint32(n)
+				return &v
+			case "uint64":
+				return uint64(n)
+			case "puint64":
+				v := uint64(n)
+				return &v
+			case "pint8":
+				v := int8(n)
+				return &v
+			}
+		}
 		if t, ok := x["$thunk"]; ok {
 			tm := t.(map[string]interface{})
 			where := "force|" + seqPath(path)
@@ -501,6 +562,12 @@ func (rt *Runtime) Hooks() gq.Hooks {
 						panic(errors.New("resolver panic (error)"))
 					case "panicStr":
 						panic("resolver panic (string)")
+					case "errForeign":
+						// an error taken from another execution (a formatted, located error with its own path): the
+						// field fails like with any other error, at ITS path
+						return nil, foreignError()
+					case "panicForeign":
+						panic(foreignError())
 					default:
 						panic(42)
 					}
@@ -510,6 +577,7 @@ func (rt *Runtime) Hooks() gq.Hooks {
 		},
 		ResolveType: func(abstract string, objects map[string]*graphql.Object) graphql.ResolveTypeFn {
 			return func(p graphql.ResolveTypeParams) *graphql.Object {
+				rt.noteTypeCtx(p.Context)
 				o, ok := p.Value.(*wobj)
 				if !ok || o == nil {
 					return nil
@@ -527,6 +595,7 @@ func (rt *Runtime) Hooks() gq.Hooks {
 		},
 		IsTypeOf: func(objName string) graphql.IsTypeOfFn {
 			return func(p graphql.IsTypeOfParams) bool {
+				rt.noteTypeCtx(p.Context)
 				o, ok := p.Value.(*wobj)
 				if !ok || o == nil {
 					return false
@@ -540,6 +609,11 @@ func (rt *Runtime) Hooks() gq.Hooks {
 			}
 		},
 	}
+}
+
+func foreignError() gqlerrors.FormattedError {
+	return gqlerrors.FormatError(gqlerrors.NewErrorWithPath("error of another execution", nil, "", nil, nil,
+		[]interface{}{"inner", 3, "boom"}, errors.New("error of another execution")))
 }
 
 // checkInfo verifies the parts of ResolveInfo that the log does not carry.
